@@ -26,6 +26,7 @@ def main():
         if a.replay:
             data = json.load(open(a.replay))
             specs = [data['spec']] if data.get('spec') is not None else []
+            rep.write_evidence = False
             mod.check(rep, a.tier, seed, specs=specs)
         else:
             mod.check(rep, a.tier, seed, n_override=a.n)
